@@ -7,7 +7,7 @@ import json, os, re, shutil, subprocess, sys
 pid = sys.argv[1]
 ks = sys.argv[2:] or ["1", "2"]
 for k in ks:
-    src = "/tmp/wt-%s/out/%s" % (pid, k)
+    src = "%s-%s/out/%s" % (os.environ.get("SEEDROOT", "/tmp/wt"), pid, k)
     if not os.path.exists(os.path.join(src, "patch.diff")):
         print(pid, k, "no patch"); continue
     conf = os.path.join(src, "confirm.txt")
@@ -25,7 +25,7 @@ for k in ks:
         m = re.search(r"replay=(\S+)", viol[0])
         if m and os.path.exists(m.group(1)):
             first = open(m.group(1)).readline().strip()[:300]
-    dst = "/verif/seeded/%s-%s" % (pid, k)
+    dst = "/verif/seeded/%s-%s%s" % (pid, os.environ.get("SEEDTAG", ""), k)
     os.makedirs(dst, exist_ok=True)
     for f in ("patch.diff", "demo.cpp", "demo.txt", "meta.json", "confirm.txt"):
         if os.path.exists(os.path.join(src, f)):
